@@ -1940,3 +1940,75 @@ def _wrapper_returns_none(src):
 
 
 M2("c18-failed-checkpoint-answer-dropped", "C18", "R2.every-return-site-hands-back-an-answer", [{"file": "execution.py", "fn": _wrapper_returns_none}])
+
+
+# ----------------------------------------------------------------------------- round 9 (DESIGN 28.15)
+M("c19-exit-returns-releases-answer", "C19", "R4.exit-hands-the-holder-its-exception", "threading.py",
+  "                for waiter in self._waiters:\n                    waiter.set()\n\n        self.release()",
+  "                for waiter in self._waiters:\n                    waiter.set()\n\n        self.release()\n        return exc_type is not None",
+  desc="__exit__ answers True after a body that raised: the holder's exception is swallowed")
+M("c19-exit-returns-false-twin", "C19", "R4.exit-hands-the-holder-its-exception", "threading.py",
+  "                for waiter in self._waiters:\n                    waiter.set()\n\n        self.release()",
+  "                for waiter in self._waiters:\n                    waiter.set()\n\n        self.release()\n        return False", expect="silent",
+  desc="benign twin: an explicit `return False` propagates the exception just as well")
+M("c20-stack-trace-sliced", "C20", "R1.emitted-value-is-the-field-or-its-lossless-image", "lambda_service.py",
+  "            result[\"StackTrace\"] = self.stack_trace", "            result[\"StackTrace\"] = self.stack_trace[-64:]")
+M("c20-stack-trace-copied-twin", "C20", "R1.emitted-value-is-the-field-or-its-lossless-image", "lambda_service.py",
+  "            result[\"StackTrace\"] = self.stack_trace", "            result[\"StackTrace\"] = list(self.stack_trace)", expect="silent",
+  desc="benign twin: a copy of the whole list is a lossless image")
+M("c05-token-adopted-only-with-updates", "C05", "R5.token-threading", "state.py",
+  "                    current_checkpoint_token = output.checkpoint_token", "                    if updates:\n                        current_checkpoint_token = output.checkpoint_token",
+  desc="a refresh-only call (no updates) still returns the next token")
+M("c05-wire-call-in-a-retry-loop", "C05", "R5.one-wire-call-per-hand-over", "lambda_service.py",
+  """            result: CheckpointDurableExecutionResponseTypeDef = (
+                self.client.checkpoint_durable_execution(
+                    DurableExecutionArn=durable_execution_arn,
+                    CheckpointToken=checkpoint_token,
+                    Updates=cast(Any, [o.to_dict() for o in updates]),
+                    **optional_params,  # type: ignore[arg-type]
+                )
+            )
+""",
+  """            for _attempt in (1, 2):
+                try:
+                    result: CheckpointDurableExecutionResponseTypeDef = (
+                        self.client.checkpoint_durable_execution(
+                            DurableExecutionArn=durable_execution_arn,
+                            CheckpointToken=checkpoint_token,
+                            Updates=cast(Any, [o.to_dict() for o in updates]),
+                            **optional_params,  # type: ignore[arg-type]
+                        )
+                    )
+                    break
+                except ConnectionError:
+                    if _attempt == 2:
+                        raise
+""")
+M("c18-only-500-is-a-service-error", "C18", "R3.checkpoint-error-classification-table", "exceptions.py",
+  "            and status_code < SERVICE_ERROR\n            and status_code >= BAD_REQUEST_ERROR\n            and status_code != TOO_MANY_REQUESTS_ERROR",
+  "            and status_code >= BAD_REQUEST_ERROR\n            and status_code not in (TOO_MANY_REQUESTS_ERROR, SERVICE_ERROR)")
+M("c18-classification-rewritten-twin", "C18", "R3.checkpoint-error-classification-table", "exceptions.py",
+  "            and status_code < SERVICE_ERROR\n            and status_code >= BAD_REQUEST_ERROR\n            and status_code != TOO_MANY_REQUESTS_ERROR",
+  "            and BAD_REQUEST_ERROR <= status_code < SERVICE_ERROR\n            and status_code not in (TOO_MANY_REQUESTS_ERROR,)", expect="silent",
+  desc="benign twin: the same table written as a chained comparison and a membership test")
+M("c18-stale-token-test-or-to-and", "C18", "R3.checkpoint-error-classification-table", "exceptions.py",
+  "                or not (error.get(\"Message\") or \"\").startswith(", "                and not (error.get(\"Message\") or \"\").startswith(")
+M("c15-aware-datetime-normalised-to-utc", "C15", "R13.leaf-encoder-renders-the-value-it-was-given", "serdes.py",
+  "            case datetime():\n                return EncodedValue(TypeTag.DATETIME, obj.isoformat())",
+  "            case datetime():\n                if obj.tzinfo is not None:\n                    obj = obj.astimezone()\n                return EncodedValue(TypeTag.DATETIME, obj.isoformat())")
+M("c15-decimal-normalised", "C15", "R13.leaf-encoder-renders-the-value-it-was-given", "serdes.py",
+  "EncodedValue(TypeTag.DECIMAL, str(obj))", "EncodedValue(TypeTag.DECIMAL, str(obj.normalize()))")
+M("c15-datetime-rendered-through-a-local-twin", "C15", "R13.leaf-encoder-renders-the-value-it-was-given", "serdes.py",
+  "            case datetime():\n                return EncodedValue(TypeTag.DATETIME, obj.isoformat())",
+  "            case datetime():\n                text = obj.isoformat()\n                return EncodedValue(TypeTag.DATETIME, text)", expect="silent",
+  desc="benign twin: the rendering goes through a local")
+M("c04-step-config-rebuilt-without-semantics", "C04", "R5.callers-config-reaches-the-executor-whole", "context.py",
+  "        if not config:\n            config = StepConfig()\n        operation_id = self._create_step_id()",
+  "        if not config:\n            config = StepConfig()\n        else:\n            config = StepConfig(retry_strategy=config.retry_strategy, serdes=config.serdes)\n        operation_id = self._create_step_id()")
+M("c04-step-config-copied-whole-twin", "C04", "R5.callers-config-reaches-the-executor-whole", "context.py",
+  "        if not config:\n            config = StepConfig()\n        operation_id = self._create_step_id()",
+  "        if not config:\n            config = StepConfig()\n        else:\n            config = StepConfig(retry_strategy=config.retry_strategy, step_semantics=config.step_semantics, serdes=config.serdes)\n        operation_id = self._create_step_id()",
+  expect="silent", desc="benign twin: a complete copy")
+M("c04-executor-gets-a-fresh-config", "C04", "R5.executor-is-handed-the-callers-config", "context.py",
+  "            config=config,\n            state=self.state,\n            operation_identifier=OperationIdentifier(\n                operation_id=operation_id,\n                parent_id=self._parent_id,\n                name=step_name,",
+  "            config=StepConfig(retry_strategy=config.retry_strategy),\n            state=self.state,\n            operation_identifier=OperationIdentifier(\n                operation_id=operation_id,\n                parent_id=self._parent_id,\n                name=step_name,")
